@@ -774,6 +774,29 @@ impl SendBuf {
     }
 }
 
+#[cfg(gmquic_verif)]
+impl SendBuf {
+    /// Verification hook (read-only): the colour map as `(offset, colour)` boundaries
+    /// (colour: 0 Pending, 1 Flighting, 2 Lost, 3 Recved), the map size and the data offset.
+    pub fn verif_colours(&self) -> (Vec<(u64, u8)>, u64, u64) {
+        let bounds = self
+            .state
+            .0
+            .iter()
+            .map(|s| {
+                let colour = match s.color() {
+                    Color::Pending => 0,
+                    Color::Flighting => 1,
+                    Color::Lost => 2,
+                    Color::Recved => 3,
+                };
+                (s.offset(), colour)
+            })
+            .collect();
+        (bounds, self.state.size(), self.offset)
+    }
+}
+
 #[cfg(test)]
 mod tests {
     use qbase::net::tx::Signals;
